@@ -237,6 +237,7 @@ func (r *Report) Finish() int {
 		outBase = d
 	}
 	replayRoot := filepath.Join(outBase, "replays", r.Prop)
+	os.RemoveAll(replayRoot) // replays always belong to the latest run
 	if len(uniq) > 0 {
 		// keep replay sources out of the driver module
 		os.MkdirAll(filepath.Join(outBase, "replays"), 0o755)
